@@ -203,8 +203,11 @@ def run(ck):
         if c.get("mode"):
             modes[c["mode"]] = modes.get(c["mode"], 0) + 1
             results[c["op"] + ":" + c["res"][:12]] = results.get(c["op"] + ":" + c["res"][:12], 0) + 1
-        ck.count(c["stream"], key=(c["op"], c.get("a"), c.get("b"), c.get("dest"), c.get("cwd"), c.get("umask"),
-                                   c.get("clear"), json.dumps(c.get("setup")), json.dumps(c.get("seen")),
+        sb = c.get("sandbox") or "\0"
+        ck.count(c["stream"], key=(c["op"], c.get("a"), c.get("b"), (c.get("dest") or "").replace(sb, "%S"),
+                                   (c.get("cwd") or "").replace(sb, "%S"), c.get("umask"),
+                                   c.get("clear"), json.dumps(c.get("setup")),
+                                   json.dumps(c.get("seen")).replace(sb, "%S"),
                                    json.dumps(c.get("tree"))), trivial=trivial(c))
         why = impl_oracle(c)
         if why:
